@@ -238,8 +238,7 @@ def rrBack (d : UInt16) : List BEvent → RRes × List BEvent
   | e :: es =>
     if e.type = ev_NOTE ∨ e.type = ev_TIE ∨ e.type = ev_REST then
       if d > e.off then
-        let d' := d - e.off
-        if d' < e.on then (.done, { e with off := 0, on := e.on - d' } :: es)
+        if d - e.off < e.on then (.done, { e with off := 0, on := e.on - (d - e.off) } :: es)
         else (.lengthError, e :: es)
       else (.done, { e with off := e.off - d } :: es)
     else if e.type = ev_SEGNO ∨ e.type = ev_LOOP_END then (.domainError, e :: es)
@@ -251,8 +250,7 @@ def rrBack (d : UInt16) : List BEvent → RRes × List BEvent
 `std::domain_error`; the shuffle sign is flipped in every case -/
 def reverseRest (t : Track) (duration : UInt16 := 0) : Track × RRes :=
   let t := t.flipShuffle
-  let (r, l) := rrBack duration t.revEvents
-  ({ t with revEvents := l }, r)
+  ({ t with revEvents := (rrBack duration t.revEvents).2 }, (rrBack duration t.revEvents).1)
 
 def setOctave (t : Track) (p : Int) : Track := { t with octave := p }
 def changeOctave (t : Track) (p : Int) : Track := { t with octave := t.octave + p }
